@@ -396,6 +396,10 @@ class CSSSerializer:
         "checks items valid property and prefs.validOnly"
         return not self.prefs.validOnly or (self.prefs.validOnly and x.valid)
 
+    def _emptyblock(self, out):
+        "the rule head in `out` with an empty block (preference keepEmptyRules)"
+        return f'{out.value()}{self.prefs.paranthesisSpacer}{{}}'
+
     def do_CSSStyleSheet(self, stylesheet):
         """serializes a complete CSSStyleSheet"""
         # indentSpecificities: every sheet starts without nesting, whatever
@@ -467,12 +471,18 @@ class CSSSerializer:
         """
         variablesText = rule.variables.cssText
 
-        if variablesText and rule.wellformed and not self.prefs.resolveVariables:
+        if (
+            (variablesText or self.prefs.keepEmptyRules)
+            and rule.wellformed
+            and not self.prefs.resolveVariables
+        ):
             out = Out(self)
             out.append(self._atkeyword(rule))
             for item in rule.seq:
                 # assume comments {
                 out.append(item.value, item.type)
+            if not variablesText:
+                return self._emptyblock(out)
             out.append('{')
             out.append(f'{variablesText}{self.prefs.lineSeparator}}}', indent=1)
             return out.value()
@@ -490,12 +500,14 @@ class CSSSerializer:
         """
         styleText = self.do_css_CSSStyleDeclaration(rule.style)
 
-        if styleText and rule.wellformed:
+        if (styleText or self.prefs.keepEmptyRules) and rule.wellformed:
             out = Out(self)
             out.append(self._atkeyword(rule))
             for item in rule.seq:
                 # assume comments {
                 out.append(item.value, item.type)
+            if not styleText:
+                return self._emptyblock(out)
             out.append('{')
             out.append(f'{styleText}{self.prefs.lineSeparator}}}', indent=1)
             return out.value()
@@ -653,10 +665,12 @@ class CSSSerializer:
         # omit semicolon only if no MarginRules
         styleText = self.do_css_CSSStyleDeclaration(rule.style, omit=not rulesText)
 
-        if (styleText or rulesText) and rule.wellformed:
+        if (styleText or rulesText or self.prefs.keepEmptyRules) and rule.wellformed:
             out = Out(self)
             out.append(self._atkeyword(rule))
             out.append(rule.selectorText)
+            if not (styleText or rulesText):
+                return self._emptyblock(out)
             out.append('{')
 
             if styleText:
@@ -700,6 +714,11 @@ class CSSSerializer:
         # might not be set at all?!
         if rule.atkeyword:
             styleText = self.do_css_CSSStyleDeclaration(rule.style)
+
+            if not styleText and self.prefs.keepEmptyRules and rule.wellformed:
+                out = Out(self)
+                out.append(self._atkeyword(rule), type_='ATKEYWORD')
+                return self._emptyblock(out)
 
             if styleText and rule.wellformed:
                 out = Out(self)
